@@ -708,8 +708,11 @@ class Daemon(object):
         if objectId == core.DAEMON_NAME:
             return
         if objectId in self.objectsById:
-            del self.objectsById[objectId]
-            if objectOrId is not None:
+            if objectOrId is None:
+                del self.objectsById[objectId]
+            elif self._registered(objectId) is objectOrId:
+                # only when the id still belongs to this very object (it may have been re-registered by force)
+                del self.objectsById[objectId]
                 del objectOrId._pyroId
                 del objectOrId._pyroDaemon
                 # Don't remove the custom type serializer because there may be
